@@ -119,6 +119,16 @@ def signature(inv, excerpt):
             detail += ":with-meta-source"
     elif ev == "resp":
         detail = ":%s:%s" % (last.get("kind"), last.get("st"))
+        reqs = excerpt[0]["req"]
+        me = reqs.get(last.get("p"), {})
+        if me.get("ik"):
+            for l in excerpt:
+                for lg in (l.get("logs") or []) if l.get("ev") == "persist" else []:
+                    other = reqs.get(lg.get("by"), {})
+                    if lg.get("ik") == me["ik"] and lg.get("by") != last.get("p") and \
+                            any(other.get(k) != me.get(k) for k in ("kind", "target", "tacct", "mval", "postings")):
+                        if not detail.endswith(":ik-replay-other-args"):
+                            detail += ":ik-replay-other-args"
     return "%s@%s%s" % (inv, ev, detail)
 
 
